@@ -41,7 +41,15 @@ func (s *Server) GetSession(w http.ResponseWriter, r *http.Request, req *saml.Id
 			return nil
 		}
 
-		if err := bcrypt.CompareHashAndPassword(user.HashedPassword, []byte(r.PostForm.Get("password"))); err != nil {
+		password := []byte(r.PostForm.Get("password"))
+		err := bcrypt.CompareHashAndPassword(user.HashedPassword, password)
+		if err == nil && len(password) > 72 {
+			// bcrypt reads the first 72 bytes only (and refuses to hash anything longer), so a
+			// longer string that compares equal is the password with something appended, not
+			// the password.
+			err = bcrypt.ErrPasswordTooLong
+		}
+		if err != nil {
 			s.logger.Printf("ERROR: Invalid password for user '%s'", r.PostForm.Get("user"))
 			s.sendLoginForm(w, req, "Invalid username or password")
 			return nil
